@@ -59,3 +59,342 @@ Proof.
     rewrite Hl, Nat.eqb_refl, all_empty_blank, HT, content_eqb_refl.
     destruct (c20_upper f); reflexivity.
 Qed.
+
+(* ------------------------------------------------------------------ reading back V *)
+Lemma vl_Vl {A} (f : A -> V) l : vl (Vl f l) = map f l.
+Proof. reflexivity. Qed.
+
+Lemma vzl_Vl l : vzl (Vl VZ l) = l.
+Proof. unfold vzl. rewrite vl_Vl, map_map. cbn [vz]. apply map_id. Qed.
+
+Lemma vopt_Vo o : vopt (Vo VZ o) = o.
+Proof. destruct o; reflexivity. Qed.
+
+Lemma ol_eqb_refl l : c20_ol_eqb l l = true.
+Proof.
+  induction l as [|[x|] l IH]; [reflexivity| |]; cbn [c20_ol_eqb]; rewrite ?Z.eqb_refl, IH; reflexivity.
+Qed.
+
+Lemma arrs_of_Vl o : c20_arrs_of (Vl V_rank o) = c20_arrs o.
+Proof.
+  unfold c20_arrs_of, c20_arrs. rewrite vl_Vl, map_map. apply map_ext. intros r.
+  unfold V_rank. cbn [vnth vl nth]. rewrite !vzl_Vl. reflexivity.
+Qed.
+
+Definition c20_pay_entries (f : c20_fmt) (leaf nextup : bool) (n : Z) : Z :=
+  if leaf then n else match f with FU => 0 | _ => if nextup then n else 0 end.
+Definition c20_occ_entries (leaf nextup : bool) (n : Z) : Z :=
+  if negb leaf && nextup then n else 0.
+Definition c20_layout_coords (f : c20_fmt) (dim : Z) (coords : list Z) : list Z :=
+  match f with FU => c20_range dim | FC => coords | FB => c20_positions coords end.
+
+(* the per-fiber oracle on the printed observation of a fiber = the same conditions on the
+   fiber's fields and on the results of the modelled handle API *)
+Lemma fiber_ok_unfold f dim leaf nextup qs e osf :
+  c20_fiber_ok f dim leaf nextup qs (V_efib qs (e, osf))
+  = let lc := c20_layout_coords f dim (ef_coords e) in
+    let n := c20_len lc in
+    (c20_code (ef_fmt e) =? c20_code f)
+    && match f with
+       | FU => c20_len (ef_coords e) =? 0 | FC => true | FB => c20_len (ef_coords e) =? dim
+       end
+    && (c20_len (ef_occ e) =? c20_occ_entries leaf nextup n)
+    && (if leaf then c20_len (ef_vals e) =? n else c20_len (ef_vals e) =? 0)
+    && c20_ol_eqb (map c20_e_coord (c20_scan e osf)) (map Some lc)
+    && (if leaf || match f with FC => nextup | _ => true end
+        then c20_ol_eqb (map c20_e_pay (c20_scan e osf)) (map Some (iota (length lc)))
+        else true)
+    && (if leaf then c20_ol_eqb (map c20_e_val (c20_scan e osf)) (map Some (ef_vals e)) else true)
+    && match f with
+       | FC => c20_ol_eqb (map (c20_c2h e) qs) (map (fun q => c20_first_ge (ef_coords e) q 0) qs)
+       | _ => true
+       end
+    && (c20_size e =? match f with
+                      | FU => 0 | FC => c20_len (ef_coords e)
+                      | FB => (c20_len (ef_coords e) + 31) / 32
+                      end + c20_occ_entries leaf nextup n + c20_pay_entries f leaf nextup n).
+Proof.
+  unfold c20_fiber_ok, V_efib, c20_layout_coords, c20_occ_entries, c20_pay_entries.
+  cbn [fst snd vnth vl nth vz].
+  rewrite !vzl_Vl, !vl_Vl, !map_map.
+  rewrite (map_ext (fun x => vopt (vnth (V_elem x) 0)) c20_e_coord)
+    by (intros x; unfold V_elem; cbn [vnth vl nth]; apply vopt_Vo).
+  rewrite (map_ext (fun x => vopt (vnth (V_elem x) 1)) c20_e_pay)
+    by (intros x; unfold V_elem; cbn [vnth vl nth]; apply vopt_Vo).
+  rewrite (map_ext (fun x => vopt (vnth (V_elem x) 2)) c20_e_val)
+    by (intros x; unfold V_elem; cbn [vnth vl nth]; apply vopt_Vo).
+  rewrite (map_ext (fun x => vopt (Vo VZ (c20_c2h e x))) (c20_c2h e))
+    by (intros x; apply vopt_Vo).
+  reflexivity.
+Qed.
+
+Ltac c20_bools :=
+  repeat (apply andb_true_iff; split); try reflexivity;
+  try (apply Z.eqb_eq; cbn [c20_code negb andb orb length]; unfold c20_len in *; cbn [length] in *; lia).
+
+Lemma fiber_ok_U d leaf nextup qs e osf :
+  0 <= d -> ef_fmt e = FU -> ef_coords e = [] -> ef_shape e = d -> ef_npay e = d ->
+  ef_leaf e = leaf -> ef_nextup e = nextup ->
+  (if leaf then c20_len (ef_vals e) = d /\ ef_occ e = []
+   else ef_vals e = [] /\ c20_len (ef_occ e) = (if nextup then d else 0)) ->
+  c20_fiber_ok FU d leaf nextup qs (V_efib qs (e, osf)) = true.
+Proof.
+  intros Hd Hf Hc Hs Hn Hl Hu Hlv. rewrite fiber_ok_unfold. cbv zeta.
+  unfold c20_layout_coords, c20_occ_entries, c20_pay_entries.
+  destruct (scan_U e osf d Hf Hs Hn) as [S1 [S2 S3]].
+  { intros Hl'. rewrite Hl' in Hl. subst leaf. apply Hlv. }
+  rewrite S1, S2, Hf, Hc, (range_len d Hd), range_length.
+  change (iota (Z.to_nat d)) with (c20_range d). rewrite !ol_eqb_refl.
+  unfold c20_size. rewrite Hf, Hl, Hn.
+  destruct leaf.
+  - destruct Hlv as [Hv Ho]. rewrite (S3 Hl), Ho, Hv, ol_eqb_refl. cbn [negb andb orb].
+    c20_bools.
+  - destruct Hlv as [Hv Ho]. rewrite Hv, Ho. cbn [negb andb orb]. destruct nextup; c20_bools.
+Qed.
+
+Lemma fiber_ok_C d hi leaf nextup qs e osf :
+  ef_fmt e = FC -> c20_asc 0 hi (ef_coords e) = true ->
+  ef_leaf e = leaf -> ef_nextup e = nextup ->
+  ef_npay e = (if leaf || nextup then c20_len (ef_coords e) else 0) ->
+  (if leaf then c20_len (ef_vals e) = c20_len (ef_coords e) /\ ef_occ e = []
+   else ef_vals e = [] /\ c20_len (ef_occ e) = (if nextup then c20_len (ef_coords e) else 0)) ->
+  c20_fiber_ok FC d leaf nextup qs (V_efib qs (e, osf)) = true.
+Proof.
+  intros Hf Hasc Hl Hu Hn Hlv. rewrite fiber_ok_unfold. cbv zeta.
+  unfold c20_layout_coords, c20_occ_entries, c20_pay_entries.
+  destruct (scan_C e osf hi Hf Hasc) as [S1 [S2 S3]].
+  { intros Hl'. rewrite Hl' in Hl. subst leaf. cbn [orb] in Hn. split; [exact Hn|apply Hlv]. }
+  rewrite S1, Hf, ol_eqb_refl, iota_len_range.
+  rewrite (map_ext (c20_c2h e) (fun q => c20_first_ge (ef_coords e) q 0)).
+  2:{ intros q. unfold c20_c2h. rewrite Hf. apply (c2h_first_ge _ 0 hi), Hasc. }
+  rewrite ol_eqb_refl.
+  unfold c20_size. rewrite Hf, Hn. rewrite Hl, Hu in S2.
+  destruct leaf.
+  - destruct Hlv as [Hv Ho]. rewrite (S3 Hl), (S2 eq_refl), Ho, Hv, !ol_eqb_refl.
+    cbn [negb andb orb]. c20_bools.
+  - destruct Hlv as [Hv Ho]. rewrite Hv, Ho. cbn [negb andb orb] in *. destruct nextup.
+    + rewrite (S2 eq_refl), ol_eqb_refl. c20_bools.
+    + c20_bools.
+Qed.
+
+Lemma fiber_ok_B d cs leaf nextup qs e osf :
+  0 <= d -> ef_fmt e = FB -> c20_asc 0 d cs = true -> ef_coords e = c20_bits d cs ->
+  ef_leaf e = leaf -> ef_nextup e = nextup -> ef_npay e = c20_len cs ->
+  (if leaf then c20_len (ef_vals e) = c20_len cs /\ ef_occ e = []
+   else ef_vals e = [] /\ c20_len (ef_occ e) = (if nextup then c20_len cs else 0)) ->
+  c20_fiber_ok FB d leaf nextup qs (V_efib qs (e, osf)) = true.
+Proof.
+  intros Hd Hf Hasc Hc Hl Hu Hn Hlv. rewrite fiber_ok_unfold. cbv zeta.
+  unfold c20_layout_coords, c20_occ_entries, c20_pay_entries.
+  destruct (scan_B e osf d cs Hf Hasc Hc Hn) as [S1 [S2 S3]].
+  { intros Hl'. rewrite Hl' in Hl. subst leaf. apply Hlv. }
+  rewrite S1, S2, Hf, Hc, (positions_bits d cs Hasc), (bits_len d cs Hd), iota_len_range, !ol_eqb_refl.
+  unfold c20_size. rewrite Hf, Hl, Hu, Hn, Hc, (bits_len d cs Hd).
+  destruct leaf.
+  - destruct Hlv as [Hv Ho]. rewrite (S3 Hl), Ho, Hv, ol_eqb_refl. cbn [negb andb orb].
+    c20_bools.
+  - destruct Hlv as [Hv Ho]. rewrite Hv, Ho. cbn [negb andb orb]. destruct nextup; c20_bools.
+Qed.
+
+(* ------------------------------------------------------------------ invariant of the encoder's output *)
+Definition c20_is_leaf (fs' : list c20_fmt) : bool := match fs' with [] => true | _ => false end.
+Definition c20_nextup (fs' : list c20_fmt) : bool :=
+  match fs' with g :: _ => c20_upper g | [] => false end.
+
+Definition c20_rank_inv (f : c20_fmt) (d : Z) (leaf nextup : bool) (rk : c20_rank) : Prop :=
+  rk_coords rk = concat (map ef_coords (rk_fibers rk))
+  /\ rk_pays rk = concat (map (fun e => ef_occ e ++ ef_vals e) (rk_fibers rk))
+  /\ Forall (fun e => forall qs osf, c20_fiber_ok f d leaf nextup qs (V_efib qs (e, osf)) = true)
+            (rk_fibers rk).
+
+Fixpoint c20_out_inv (fs : list c20_fmt) (ds : list Z) (o : c20_out) : Prop :=
+  match fs, ds, o with
+  | [], _, [] => True
+  | f :: fs', d :: ds', rk :: o' =>
+    c20_rank_inv f d (c20_is_leaf fs') (c20_nextup fs') rk /\ c20_out_inv fs' ds' o'
+  | _, _, _ => False
+  end.
+
+Lemma out_inv_cons f fs' d ds' rk o' :
+  c20_rank_inv f d (c20_is_leaf fs') (c20_nextup fs') rk -> c20_out_inv fs' ds' o' ->
+  c20_out_inv (f :: fs') (d :: ds') (rk :: o').
+Proof. intros; split; assumption. Qed.
+
+Lemma out_inv_blank fs : forall ds, length ds = length fs -> c20_out_inv fs ds (c20_blank fs).
+Proof.
+  induction fs as [|f fs IH]; intros ds H; [exact I|].
+  destruct ds as [|d ds]; [discriminate|]. cbn [c20_blank map c20_out_inv]. split.
+  - repeat split; constructor.
+  - apply IH. cbn [length] in H. lia.
+Qed.
+
+Lemma out_inv_oapp fs : forall ds a b,
+  c20_out_inv fs ds a -> c20_out_inv fs ds b -> c20_out_inv fs ds (c20_oapp a b).
+Proof.
+  induction fs as [|f fs IH]; intros ds a b Ha Hb.
+  - destruct a; [|destruct ds; contradiction]. exact Hb.
+  - destruct ds as [|d ds]; [destruct a; contradiction|].
+    destruct a as [|x a]; [contradiction|]. destruct b as [|y b]; [contradiction|].
+    cbn [c20_out_inv] in *. destruct Ha as [[A1 [A2 A3]] Ha]. destruct Hb as [[B1 [B2 B3]] Hb].
+    cbn [c20_oapp c20_out_inv]. split; [|apply IH; assumption].
+    unfold c20_rank_inv. cbn [rk_coords rk_pays rk_fibers].
+    rewrite !map_app, !concat_app, A1, A2, B1, B2. repeat split. apply Forall_app. split; assumption.
+Qed.
+
+Definition c20_leaf_fiber (f : c20_fmt) (d : Z) (es : fib) : c20_efib :=
+  {| ef_fmt := f; ef_coords := c20_coords f d es; ef_occ := []; ef_vals := c20_vals f d es;
+     ef_npay := c20_len (c20_vals f d es);
+     ef_shape := match f with FU => d | _ => 0 end;
+     ef_leaf := true; ef_nextup := false; ef_nnz := c20_ret f es |}.
+
+Definition c20_int_fiber (f g : c20_fmt) (d : Z) (es : fib) (rs : list (c20_out * Z)) : c20_efib :=
+  {| ef_fmt := f; ef_coords := c20_coords f d es;
+     ef_occ := if c20_upper g then c20_cumul 0 (map snd rs) else [];
+     ef_vals := [];
+     ef_npay := match f with
+                | FC => if c20_upper g then c20_len rs else 0
+                | _ => c20_len rs
+                end;
+     ef_shape := match f with FU => d | _ => 0 end;
+     ef_leaf := false; ef_nextup := c20_upper g; ef_nnz := c20_ret f es |}.
+
+Lemma enc_leaf_fst f d ds t :
+  fst (c20_enc [f] (d :: ds) t)
+  = [{| rk_coords := c20_coords f d (c20_es t); rk_pays := c20_vals f d (c20_es t);
+        rk_fibers := [c20_leaf_fiber f d (c20_es t)] |}].
+Proof. reflexivity. Qed.
+
+Lemma enc_int_fst f g fs'' d ds t :
+  let rs := map (c20_enc (g :: fs'') ds) (c20_kids f d (c20_es t)) in
+  fst (c20_enc (f :: g :: fs'') (d :: ds) t)
+  = {| rk_coords := c20_coords f d (c20_es t);
+       rk_pays := if c20_upper g then c20_cumul 0 (map snd rs) else [];
+       rk_fibers := [c20_int_fiber f g d (c20_es t) rs] |}
+    :: fold_right c20_oapp (c20_blank (g :: fs'')) (map fst rs).
+Proof. reflexivity. Qed.
+
+Lemma present_asc d es : c20_asc 0 d (map fst es) = true ->
+  c20_asc 0 d (map fst (present 0 es)) = true.
+Proof. intros H. apply (asc_filter (fun ct => negb (is_empty 0 (snd ct))) es 0 d H). Qed.
+
+Lemma leaf_fiber_ok f d es qs osf : 0 <= d -> c20_asc 0 d (map fst es) = true ->
+  c20_fiber_ok f d true false qs (V_efib qs (c20_leaf_fiber f d es, osf)) = true.
+Proof.
+  intros Hd Hasc. pose proof (present_asc d es Hasc) as Hp. destruct f.
+  - apply fiber_ok_U; try reflexivity; [exact Hd| |].
+    + cbn [c20_leaf_fiber ef_npay c20_vals]. rewrite len_map. apply range_len, Hd.
+    + cbn [c20_leaf_fiber ef_vals ef_occ c20_vals]. rewrite len_map. split; [apply range_len, Hd|reflexivity].
+  - apply (fiber_ok_C d d); try reflexivity; [exact Hp| |].
+    + cbn [c20_leaf_fiber ef_npay ef_coords c20_vals c20_coords orb]. rewrite !len_map. reflexivity.
+    + cbn [c20_leaf_fiber ef_vals ef_occ ef_coords c20_vals c20_coords]. rewrite !len_map.
+      split; reflexivity.
+  - apply (fiber_ok_B d (map fst (present 0 es))); try reflexivity; [exact Hd|exact Hp| |].
+    + cbn [c20_leaf_fiber ef_npay c20_vals]. rewrite !len_map. reflexivity.
+    + cbn [c20_leaf_fiber ef_vals ef_occ c20_vals]. rewrite !len_map. split; reflexivity.
+Qed.
+
+Lemma kids_len_U d es : 0 <= d -> c20_len (c20_kids FU d es) = d.
+Proof. intros H. cbn [c20_kids]. rewrite len_map. apply range_len, H. Qed.
+
+Lemma int_fiber_ok f g fs'' d ds es qs osf : 0 <= d -> c20_asc 0 d (map fst es) = true ->
+  c20_fiber_ok f d false (c20_upper g) qs
+    (V_efib qs (c20_int_fiber f g d es (map (c20_enc (g :: fs'') ds) (c20_kids f d es)), osf)) = true.
+Proof.
+  intros Hd Hasc. pose proof (present_asc d es Hasc) as Hp.
+  set (rs := map (c20_enc (g :: fs'') ds) (c20_kids f d es)).
+  assert (Hrs : c20_len rs = c20_len (c20_kids f d es)) by (subst rs; apply len_map).
+  assert (Hocc : c20_len (if c20_upper g then c20_cumul 0 (map snd rs) else [])
+                 = if c20_upper g then c20_len rs else 0).
+  { destruct (c20_upper g); [|reflexivity]. rewrite cumul_len, len_map. reflexivity. }
+  destruct f.
+  - apply fiber_ok_U; try reflexivity; [exact Hd| |].
+    + cbn [c20_int_fiber ef_npay]. rewrite Hrs. apply kids_len_U, Hd.
+    + cbn [c20_int_fiber ef_vals ef_occ]. split; [reflexivity|].
+      rewrite Hocc, Hrs, (kids_len_U d es Hd). reflexivity.
+  - apply (fiber_ok_C d d); try reflexivity; [exact Hp| |].
+    + cbn [c20_int_fiber ef_npay ef_coords c20_coords orb]. rewrite Hrs. cbn [c20_kids].
+      rewrite !len_map. reflexivity.
+    + cbn [c20_int_fiber ef_vals ef_occ ef_coords c20_coords]. split; [reflexivity|].
+      rewrite Hocc, Hrs. cbn [c20_kids]. rewrite !len_map. reflexivity.
+  - apply (fiber_ok_B d (map fst (present 0 es))); try reflexivity; [exact Hd|exact Hp| |].
+    + cbn [c20_int_fiber ef_npay]. rewrite Hrs. cbn [c20_kids]. rewrite !len_map. reflexivity.
+    + cbn [c20_int_fiber ef_vals ef_occ]. split; [reflexivity|].
+      rewrite Hocc, Hrs. cbn [c20_kids]. rewrite !len_map. reflexivity.
+Qed.
+
+Lemma enc_inv fs : forall ds t,
+  length ds = length fs -> forallb (Z.leb 0) ds = true -> c20_wf_tree ds t = true ->
+  c20_out_inv fs ds (fst (c20_enc fs ds t)).
+Proof.
+  induction fs as [|f fs IH]; intros ds t Hlen Hpos Hwf; [exact I|].
+  destruct ds as [|d ds]; [discriminate|]. destruct t as [v|es]; [discriminate|].
+  cbn [forallb] in Hpos. apply andb_true_iff in Hpos. destruct Hpos as [Hd Hpos].
+  apply Z.leb_le in Hd.
+  pose proof Hwf as Hwf0. cbn [c20_wf_tree] in Hwf0. apply andb_true_iff in Hwf0.
+  destruct Hwf0 as [Hasc _].
+  destruct fs as [|g fs''].
+  - rewrite enc_leaf_fst. cbn [c20_out_inv c20_is_leaf c20_nextup c20_es]. split; [|exact I].
+    unfold c20_rank_inv. cbn [rk_coords rk_pays rk_fibers map concat c20_leaf_fiber ef_coords ef_occ ef_vals app].
+    rewrite !app_nil_r. repeat split. constructor; [|constructor].
+    intros qs osf. apply leaf_fiber_ok; assumption.
+  - destruct ds as [|d' ds']; [discriminate|].
+    rewrite enc_int_fst. cbv zeta. cbn [c20_es]. apply out_inv_cons.
+    + cbn [c20_is_leaf c20_nextup]. unfold c20_rank_inv.
+      cbn [rk_coords rk_pays rk_fibers map concat c20_int_fiber ef_coords ef_occ ef_vals app].
+      rewrite !app_nil_r. repeat split. constructor; [|constructor].
+      intros qs osf. apply int_fiber_ok; assumption.
+    + assert (Hlen' : length (d' :: ds') = length (g :: fs'')) by (cbn [length] in *; lia).
+      pose proof (kids_wf f d d' ds' es Hwf) as Hk.
+      induction (c20_kids f d es) as [|k ks IHk]; cbn [map fold_right].
+      * apply out_inv_blank, Hlen'.
+      * inversion Hk as [|? ? Hk1 Hk2]; subst. apply out_inv_oapp.
+        -- apply IH; assumption.
+        -- apply IHk, Hk2.
+Qed.
+
+(* ------------------------------------------------------------------ levels of the model observation *)
+Lemma osf_map {B} (g : c20_efib * Z -> B) (h : c20_efib -> B) l : forall a,
+  (forall e z, g (e, z) = h e) -> map g (c20_osf a l) = map h l.
+Proof.
+  induction l as [|e l IH]; intros a H; [reflexivity|].
+  cbn [c20_osf map]. rewrite H, (IH _ H). reflexivity.
+Qed.
+
+Lemma osf_in l : forall a eo, In eo (c20_osf a l) -> In (fst eo) l.
+Proof.
+  induction l as [|e l IH]; intros a eo H; [contradiction|].
+  cbn [c20_osf] in H. destruct H as [<-|H]; [left; reflexivity|right; apply (IH _ _ H)].
+Qed.
+
+Lemma levels_ok_model fs : forall ds o qs, c20_out_inv fs ds o ->
+  c20_levels_ok fs ds qs (c20_arrs o)
+    (map (fun rk => Vl (V_efib qs) (c20_osf 0 (rk_fibers rk))) o) = true.
+Proof.
+  induction fs as [|f fs IH]; intros ds o qs H.
+  - destruct o; [reflexivity|destruct ds; contradiction].
+  - destruct ds as [|d ds]; [destruct o; contradiction|]. destruct o as [|rk o]; [contradiction|].
+    cbn [c20_out_inv] in H. destruct H as [[H1 [H2 H3]] Ho].
+    cbn [c20_arrs map c20_levels_ok].
+    fold (c20_arrs o). fold (c20_is_leaf fs). fold (c20_nextup fs).
+    rewrite vl_Vl, !map_map.
+    rewrite (osf_map (fun x => vzl (vnth (V_efib qs x) 1)) ef_coords)
+      by (intros e z; unfold V_efib; cbn [vnth vl nth fst]; apply vzl_Vl).
+    rewrite (osf_map (fun x => vzl (vnth (V_efib qs x) 2) ++ vzl (vnth (V_efib qs x) 3))
+                     (fun e => ef_occ e ++ ef_vals e))
+      by (intros e z; unfold V_efib; cbn [vnth vl nth fst]; rewrite !vzl_Vl; reflexivity).
+    rewrite <- H1, <- H2, !zl_eqb_refl, (IH ds o qs Ho). cbn [andb]. rewrite andb_true_r.
+    apply forallb_forall. intros v Hv. apply in_map_iff in Hv. destruct Hv as [[e z] [<- Hin]].
+    apply osf_in in Hin. cbn [fst] in Hin. rewrite Forall_forall in H3. apply (H3 e Hin).
+Qed.
+
+(* ------------------------------------------------------------------ the model meets the oracle *)
+Lemma c20_model_holds c : c20_wf c = true ->
+  holds c20_checker c (model c20_checker c) = true.
+Proof.
+  intros Hwf. cbn [holds model c20_checker]. unfold c20_holds, c20_model.
+  cbn [vl vnth nth length Nat.eqb andb].
+  rewrite vzl_Vl, arrs_of_Vl, vl_Vl.
+  pose proof (holds_decode_model c Hwf) as Hd. cbv zeta in Hd. rewrite Hd. cbn [andb].
+  destruct (wf_parts c Hwf) as [Hne [Hlen [Hpos Ht]]].
+  unfold c20_root. cbn [snd]. apply levels_ok_model. apply enc_inv; assumption.
+Qed.
